@@ -10,26 +10,34 @@ META = {
     "property_id": "C06",
     "technique": "Coq proof over an interleaving model of project.loadModule / module.wait / module.done "
                  "(one step per critical section) + replay of verifhook logs of real Load runs by the model",
-    "level_text": "Theorems (Coq, all load graphs, all numbers of packages, all schedules): every module file is executed "
-                  "at most once; no reachable non-final state is stuck (deadlock freedom: every cycle of loading edges "
-                  "contains a walker that finds itself) and every run is finite with an explicit step bound (a measure "
-                  "that every step decreases; the seen set bounds each walk); with an acyclic load graph no error is ever "
-                  "produced, every final state has every registered module loaded without error and the registered set is "
-                  "exactly the set reachable from the packages (schedule independent); with a cycle reachable from a "
-                  "package every final state carries a (cyclic-dependency) error, so Load fails. "
+    "level_text": "Theorems (Coq, all load graphs, all numbers of packages, all schedules, every set of module files that "
+                  "fail by themselves): every module file is executed at most once; no reachable non-final state is stuck "
+                  "(deadlock freedom: every cycle of loading edges contains a walker that finds itself) and every run is "
+                  "finite with an explicit step bound (a measure that every step decreases; the seen set bounds each walk); "
+                  "with an acyclic load graph whose files do not fail no error is ever produced, every final state has "
+                  "every registered module loaded without error and the registered set is exactly the set reachable from "
+                  "the packages (schedule independent); with a cycle reachable from a package every final state carries a "
+                  "(cyclic-dependency) error, so Load fails; with a reachable file that fails by itself (missing, "
+                  "unreadable, syntax error, unknown project, run-time failure) every schedule still ends and ends with "
+                  "the failure published. "
                   "The model is tied to module.go/project.go by running Load on generated projects "
-                  "(chains, diamonds, shared helpers, 2/3/4-cycles, self-loads, random graphs) under seeded jitter and "
+                  "(chains, diamonds, shared helpers, 2/3/4-cycles, self-loads, random graphs; the same with failing "
+                  "files shared by several loaders; the same shapes at sizes up to a few hundred modules / packages) "
+                  "under seeded jitter and a rendezvous schedule that has every package mid-execution at once, and "
                   "having the model replay every hook log event by event, plus direct oracles on the implementation.",
     "level_note": "Trusted: Coq kernel; atomicity of the Go critical sections (each takes exactly one mutex and does not "
                   "block inside, read off the source); Starlark's ExecFile modelled as 'run the load statements in order, "
-                  "fail at the first failing load'; the log reordering of out-of-lock hop events (python, within the "
-                  "window in which the read can have happened). Remote modules (fetch errors) are out of scope.",
+                  "fail at the first failing load or at the file's own fault'; the log reordering of out-of-lock hop "
+                  "events (python, within the window in which the read can have happened). Sizes are sampled (quick: up "
+                  "to 130 deep / 65 packages side by side; thorough: 400 / 257), not proved for the Go code. Modules of "
+                  "remote projects that are in the build list (network fetch errors) are out of scope; a project that is "
+                  "not in the build list is covered.",
     "design_ref": "DESIGN.md §6 C06",
 }
 
 # sizes of the scale family (chains / cycles / packages side by side / load statements per file): around powers of two
 SIZES_QUICK = [12, 33, 65, 130]
-SIZES_THOROUGH = [12, 17, 33, 65, 130, 257, 400]
+SIZES_THOROUGH = [12, 17, 33, 65, 130, 257, 400]   # packages side by side: up to 257
 
 HDR = "From Coq Require Import List NArith.\nImport ListNotations.\nFrom Dawn Require Import Loader.Model Loader.Run.\n"
 
@@ -261,7 +269,7 @@ def run(ctx):
     reps = 6 if ctx.quick() else 8
     sizes = SIZES_QUICK if ctx.quick() else SIZES_THOROUGH
     env = {"VERIF_OUT": out, "VERIF_SEED": str(ctx.seed), "VERIF_NRAND": str(nrand), "VERIF_REPS": str(reps),
-           "VERIF_WATCHDOG_MS": "8000", "VERIF_SIZES": ",".join(map(str, sizes))}
+           "VERIF_WATCHDOG_MS": "8000", "VERIF_SIZES": ",".join(map(str, sizes)), "VERIF_WIDE_MAX": "70" if ctx.quick() else "260"}
     rc, o = ctx.go_overlay_test("", {"zz_verif_c06_load_test.go": os.path.join(HARNESS, "overlay/root/zz_verif_c06_load_test.go")},
                                 "^TestVerifC06$", env)
     if rc != 0:
@@ -270,6 +278,7 @@ def run(ctx):
                       {"theorem_or_correspondence": "C06 correspondence harness", "output": o[-3000:]}, found_input=False)
         return
     runs = [json.loads(l) for l in open(out) if l.strip()]
+    ctx.log("harness done: %d runs" % len(runs))
 
     # ---- direct oracles on the implementation
     dist = {}
@@ -332,7 +341,9 @@ def run(ctx):
             oracle_fail += 1
             rp = brief(r)
             rp["oracle"] = bad
-            rp["how"] = "write the project (harness/overlay/root/zz_verif_c06_load_test.go: c06Write) and call dawn.Load"
+            rp["how"] = ("write the project (harness/overlay/root/zz_verif_c06_load_test.go: c06Write; mods = the load statements "
+                         "of //:<name>.dawn, pkgs = those of <dir>/BUILD.dawn, faults as in c06Fault) and call dawn.Load; "
+                         "rendezvous = hold every package file at the start of its execution until all have started")
             rp["hook_log_tail"] = r["log"][-40:]
             ctx.violation("implementation violates C06: %s" % bad[0], rp)
 
@@ -345,11 +356,20 @@ def run(ctx):
         c, mv = render_case(r)
         moved_total += mv
         cases.append((r, c))
-    shard = 150
+    # shards of about equal replay cost (the model's state is a stack of function updates, so the cost of a log grows
+    # with the square of its length: the few large graphs must not end up in one shard)
+    nsh = max(1, min(14, len(cases) // 20))
+    weight = [len(r["log"]) * (1 + len(r["log"]) / 200.0) for r, _ in cases]
+    bins = [[0.0, []] for _ in range(nsh)]
+    for i in sorted(range(len(cases)), key=lambda i: -weight[i]):
+        b = min(bins, key=lambda b: b[0])
+        b[0] += weight[i]
+        b[1].append(i)
     exprs = []
-    for i in range(0, len(cases), shard):
-        items = ["(%s, %s)" % (cq_N(i + j), c) for j, (_, c) in enumerate(cases[i:i + shard])]
+    for _, idx in bins:
+        items = ["(%s, %s)" % (cq_N(i), cases[i][1]) for i in sorted(idx)]
         exprs.append("verdicts [\n" + ";\n".join(items) + "]")
+    ctx.log("oracles done, %d shards to replay" % len(exprs))
     okc, res, logs = ctx.coq_eval(HDR, exprs)
     nevents = sum(len(r["log"]) for r, _ in cases)
     ctx.coverage["evaluations"] = len(runs)
@@ -364,12 +384,12 @@ def run(ctx):
                             "directly, through other modules, under a chain, under a diamond, beside and inside a cycle, two "
                             "at once, and on a package file, plus %d random graphs with 1-2 random faults; size family: "
                             "chains, cycles, packages side by side, load statements per file, combs and w x d private chains "
-                            "at sizes %s) x %d runs each (3 for the size family: first without jitter, the second with a "
+                            "at sizes %s) x %d runs each (4 for the fault family, 3 for the size family, packages side by side up to 70 in the quick tier: first without jitter, the second with a "
                             "rendezvous that holds every package file (and every private chain at its deepest module) "
                             "mid-execution until all have started, then seeded Gosched/sleep jitter at hook points, "
                             "GOMAXPROCS=%s); non-trivial = at least one registry hit by a loading module (wait path "
                             "taken); distinct by graph and full hook log"
-                            % (len(by_scenario), nrand, nrand // 4, sizes, reps, runs[0]["procs"] if runs else "?"))
+                            % (len(by_scenario), nrand, nrand // 8, sizes, reps, runs[0]["procs"] if runs else "?"))
     ctx.coverage["correspondence"]["rendezvous_runs"] = sum(1 for r in runs if r.get("rendezvous"))
     ctx.coverage["correspondence"]["rendezvous_timeouts"] = sum(r.get("rv_timeouts", 0) for r in runs)
     ctx.coverage["correspondence"]["runs_with_a_failing_file"] = sum(1 for r in runs if r.get("faults") or
